@@ -999,6 +999,8 @@ impl AnnotationStore {
     }
 
     pub fn changed(&self) -> bool {
+        #[cfg(feature = "verif")]
+        crate::verif::yield_point("store.changed");
         if let Ok(changed) = self.changed.read() {
             *changed
         } else {
